@@ -92,14 +92,20 @@ def info(name):
 class Resource:
     """One backing resource (file / redis key / mongo document / zarr array)."""
 
-    def __init__(self, info, scratch, name="r0", store=None):
+    def __init__(self, info, scratch, name="r0", store=None, symlink=False):
         self.info = info
         self.name = name
         self.scratch = scratch
+        self.symlink = bool(symlink) and info.backend == "json"
         b = info.backend
         if b == "json":
             self.path = os.path.join(scratch, name + ".json")
             self.store = None
+            if self.symlink:
+                # the file name the collections are bound to is a symbolic link to another file in the directory;
+                # everything (library, probes, outside writer) goes through the name
+                self.target = os.path.join(scratch, name + ".target")
+                os.symlink(self.target, self.path)
         elif b == "redis":
             self.store = store if store is not None else fakes.FakeRedis()
             self.key = name
@@ -178,7 +184,7 @@ class Resource:
         return None if self.store is None else self.store.writes
 
     # -- outside writer -----------------------------------------------------------------
-    def outside_write(self, value, bump=True, raw=None):
+    def outside_write(self, value, bump=True, raw=None, replace=False):
         """Write ``value`` to the resource the way another process would.
 
         bump=True : for files, guarantee that (st_size, st_mtime_ns) differs from before
@@ -196,8 +202,16 @@ class Resource:
                 pass
             if bump and old is not None and len(blob) == old.st_size and raw is None:
                 blob += b" "
-            with open(self.path, "wb") as f:
-                f.write(blob)
+            if replace:
+                # the way careful writers publish a new version: temporary file, then rename onto the name
+                # (a symbolic link at that name is replaced by the regular file)
+                tmp = self.path + ".outside.tmp"
+                with open(tmp, "wb") as f:
+                    f.write(blob)
+                os.replace(tmp, self.path)
+            else:
+                with open(self.path, "wb") as f:
+                    f.write(blob)
             if bump and old is not None:
                 new = os.stat(self.path)
                 if new.st_mtime_ns <= old.st_mtime_ns:
@@ -225,8 +239,9 @@ class Resource:
     def remove(self):
         b = self.info.backend
         if b == "json":
+            # a symbolic link stays in place and dangles: the name then refers to a missing file
             try:
-                os.remove(self.path)
+                os.remove(self.target if self.symlink and os.path.islink(self.path) else self.path)
             except FileNotFoundError:
                 pass
         elif b == "redis":
